@@ -1,3 +1,4 @@
+#include "verif.h"
 #include "hash_abs.h"
 #include <stdarg.h>
 #include <stdio.h>
@@ -13,6 +14,8 @@ static int verif_router_snprintf(char *buf, size_t size, const char *fmt, ...)
 	size_t pos = 0;
 	if (fmt[1] == 's') {
 		const char *s = va_arg(ap, const char *);
+		/* C99 7.19.6.1/8: the argument of %s shall be a pointer to a string; NULL is undefined behaviour (glibc prints "(null)") */
+		CHECK(s != 0, "C06.routed_id_formats_a_string_not_null");
 		if (!s) s = "(null)";
 		for (size_t i = 0; s[i] && i < 8; i++) verif_put(buf, size, &pos, s[i]);
 		verif_put(buf, size, &pos, '_');
